@@ -315,7 +315,10 @@ class Hedger(Module):
             # This maintains consistency with the previous implementations.
             # In previous implementation for loop is computed for 0...T-2 and
             # the last time step is not included.
-            output[..., -1, :] = output[..., -2, :]
+            # Built out of place: overwriting the model's output would break the
+            # backward pass of models whose last operation saves its output
+            # (e.g. ReLU, Tanh, Sigmoid).
+            output = torch.cat((output[..., :-1, :], output[..., [-2], :]), dim=-2)
 
         output = output.transpose(-1, -2)  # (N, H, T)
 
